@@ -322,3 +322,10 @@ package util
 //@     invariant i > 0 ==> real(input) >= real(xValues[i])
 //@     invariant forall k :: k in steps ==> exists j :: 0 <= j && j < len(xValues) && xValues[j] == k
 //@     invariant forall k, j :: k in steps && 0 <= j && j + 1 < len(xValues) && xValues[j] < k ==> xValues[j+1] <= k
+
+// ---- tickers, contexts, channels (actor loops: C03, C09) ------------------------------------------------
+//@ extern func time.NewTicker(d time.Duration) (t *time.Ticker)
+//@   ensures t != nil && fresh(t)
+//@   trusted "NewTicker returns a fresh ticker (a non-positive duration panics: not modelled, rates come from defaults)"
+//@ iface (ctx context.Context).Done() (ch <-chan struct{})
+//@   trusted "any channel"
